@@ -43,6 +43,35 @@ def unhx(t):
 
 
 # ------------------------------------------------------------------------------------------------ generators
+def py_dir_size(dpos, ents):
+    """bytes `sqfs_dir_writer_end` emits for entries (name, inode number, inode ref) starting at stream position
+    `dpos` of a never-compressed directory table — an independent replica of get_conseq_entry_count"""
+    off = dpos % 8192
+    total, i = 0, 0
+    while i < len(ents):
+        size = (off + 12) % 8192
+        count = 0
+        hblk, hnum = ents[i][2] >> 16, ents[i][1]
+        for (nm, num, ref) in ents[i:]:
+            if (ref >> 16) != hblk:
+                break
+            d = (num - hnum) & 0xFFFFFFFF
+            d = d - (1 << 32) if d >= (1 << 31) else d
+            if d > 32767 or d < -32767:
+                break
+            size += 8 + len(nm)
+            if count > 0 and size > 8192:
+                break
+            count += 1
+            if count == 256:
+                break
+        run = 12 + sum(8 + len(e[0]) for e in ents[i:i + count])
+        total += run
+        off = (off + run) % 8192
+        i += count
+    return total
+
+
 class Gen:
     def __init__(self, rng, quick):
         self.r = rng
@@ -146,6 +175,14 @@ class Gen:
                     d = self.inode_desc(kind, ext, bs)
                     tr = bytes(r.randrange(0, 256) for _ in range(r.choice([0, 1, 4, 16])))
                     self.add("inode %d %s %s" % (bs, hx(tr), " ".join(d)), op="inode", rt=True, desc=d, trailer=len(tr))
+        # sizes and starts around 2^32 and 2^64 for extended files (1 MiB blocks keep the block list at 4096 words)
+        for size, start, sparse in [((1 << 32) - 1, 96, 0), (1 << 32, (1 << 32) - 1, 0), ((1 << 32) + 1, 1 << 32, 1 << 20),
+                                    ((1 << 32) + (1 << 20), (1 << 64) - 1, (1 << 32) + 5), ((1 << 33) + 7, (1 << 40) + 3, 0)]:
+            fi, fo = (0, 5) if size % (1 << 20) else (NONE32, NONE32)
+            n = self.block_count(size, 1 << 20, fi, fo)
+            d = ["xfile"] + list(map(str, self.base("file"))) + list(map(str, [start, size, sparse, r.choice([1, 2, NONE32]), fi, fo,
+                                                                                 r.choice([NONE32, 3])])) + [self.words(n)]
+            self.add("inode %d %s %s" % (1 << 20, "a1b2", " ".join(d)), op="inode", rt=True, desc=d, trailer=2)
         # deliberately inconsistent descriptions: only model = code is asked (no round trip expected)
         bad = [
             "inode 4096 aabbccdd slink 41471 0 0 0 1 1 3 6162636465",            # target_size < payload
@@ -227,12 +264,27 @@ class Gen:
         for dpos in [8192 - 12 - 8 - 256, 8192 - 12 - 8 - 255, 8192 - 12, 8192 - 11, 8191, 8180, 8192 * 2 - 300, 4000]:
             names = self.sorted_names(r.choice([3, 40, 70]), [256, 255, 200, 1])
             self.dirl(dpos, r.choice([NONE32, 0]), 9, ents_for(names, lambda i: 1 + i, lambda i: i * 64), what="8k")
-        # listing sizes around 64 KiB (basic inode holds size + 3 in 16 bits) with fewer than 256 entries
-        for last in range(230, 257, 1 if not self.quick else 3):
-            names = self.sorted_names(246, [256])
-            names[-1] = names[-1][:last] if last > 0 else names[-1][:1]
-            names = sorted(set(names))
-            self.dirl(0, NONE32, 2, ents_for(names, lambda i: 1 + i, lambda i: 0), what="64k")
+        # listing sizes exactly around 64 KiB (a basic inode holds size + 3 in 16 bits) with fewer than 256 entries:
+        # 65531..65537 bytes, computed with the replica of get_conseq_entry_count below
+        for dpos in ([0] if self.quick else [0, 4000]):
+            names = self.sorted_names(250, [256])
+            base = []
+            for i, nm in enumerate(names):
+                if py_dir_size(dpos, base + [(nm, 1 + i, 0)]) > 65400:
+                    break
+                base.append((nm, 1 + i, 0))
+            hit = {}
+            for b in (3, 10, 50, 100, 200, 256):
+                for a in range(2, 257):
+                    cand = base + [(b"\xff\xff" + b"\x01" * (a - 2), 9000, 0), (b"\xff\xff\xff" + b"\x01" * (b - 3), 9001, 0)]
+                    cand = sorted(cand, key=lambda e: e[0])
+                    if len({e[0] for e in cand}) != len(cand):
+                        continue
+                    sz = py_dir_size(dpos, cand)
+                    if 65531 <= sz <= 65537 and sz not in hit:
+                        hit[sz] = cand
+            for sz in sorted(hit):
+                self.dirl(dpos, NONE32, 2, [(nm, num, ref, modes[1]) for (nm, num, ref) in hit[sz]], what="64k", size=sz)
         # names with high bytes, quotes, spaces; every type
         for _ in range(scale):
             n = r.choice([1, 3, 7, 20, 60])
@@ -289,6 +341,10 @@ class Gen:
             self.add("idtab %d %s" % (r.choice([0, 96]), " ".join(map(str, ids))), op="idtab", ids=ids)
         for n in ([2047, 2048, 2049, 4096] if self.quick else [2048, 2049, 65534, 65535, 65536, 65537]):
             self.add("idrange %d" % n, op="idrange", n=n)
+        # the 65535-id limit on a pre-loaded table (cheap): ids 5..9 are new, 1000.. are present
+        for n0, ids in [(65533, [5, 1000, 6, 7, 8]), (65534, [5, 5, 1001, 6]), (65535, [1001, 66534, 9]), (65535, [9]), (65532, [5, 6, 7, 8]),
+                        (3, [1002, 1002, 4, 5])]:
+            self.add("idlimit %d %s" % (n0, " ".join(map(str, ids))), op="idlimit", n0=n0, ids=ids)
         for n in [1, 2, 511, 512, 513, 1024, 1025] + [r.randrange(1, 700) for _ in range(scale)]:
             fr = [(self.u(64), r.choice([(1 << 24) | r.randrange(1, 1 << 17), r.randrange(1, 1 << 17), self.u(32)])) for _ in range(n)]
             self.add("frag %d %s" % (r.choice([0, 96]), " ".join("%d/%d" % f for f in fr)), op="frag", frags=fr)
@@ -474,24 +530,42 @@ def generate(rng, quick):
 
 
 # ------------------------------------------------------------------------------------------------ running
+def _limits():
+    import resource
+    resource.setrlimit(resource.RLIMIT_FSIZE, (1 << 30, 1 << 30))          # a runaway answer is cut at 1 GiB (SIGXFSZ)
+
+
 def run_real(ctx, exe, lines, timeout):
     """answers of the real code, one per line; a sanitizer abort / signal / timeout becomes the answer of the op
-    that was being executed (`crash …`), and the harness is restarted behind it"""
+    that was being executed (`crash …`), and the harness is restarted behind it.  The harness writes to a file in the
+    scratch directory (size-limited) and runs with an allocation cap, so that a broken library cannot take the check
+    down with it."""
     out = []
     i = 0
-    env = ctx.san_env()
+    env = ctx.san_env({"ASAN_OPTIONS": "detect_leaks=0:abort_on_error=0:exitcode=99:allocator_may_return_null=1:"
+                                       "max_allocation_size_mb=1024:hard_rss_limit_mb=4096"})
+    round_no = 0
     while i < len(lines):
+        round_no += 1
+        fin = ctx.scratch / ("units_in_%d.txt" % round_no)
+        fout = ctx.scratch / ("units_out_%d.txt" % round_no)
+        fin.write_text("\n".join(lines[i:]) + "\n")
+        err = ""
         try:
-            p = subprocess.run([str(exe)], input="\n".join(lines[i:]) + "\n", stdout=subprocess.PIPE, stderr=subprocess.PIPE,
-                               text=True, env=env, timeout=timeout)
-            got = p.stdout.split("\n")
-            if got and got[-1] == "":
-                got.pop()
-            rc, err = p.returncode, p.stderr
-        except subprocess.TimeoutExpired as e:
-            got = (e.stdout or b"").decode("latin-1").split("\n")[:-1] if e.stdout else []
+            with open(fin) as fi, open(fout, "w") as fo:
+                p = subprocess.run([str(exe)], stdin=fi, stdout=fo, stderr=subprocess.PIPE, text=True, env=env,
+                                   timeout=timeout, preexec_fn=_limits)
+            rc, err = p.returncode, p.stderr[-20000:]
+        except subprocess.TimeoutExpired:
             rc, err = -999, "timeout"
-        if rc == 0 and len(got) == len(lines) - i:
+        got = fout.read_text(errors="replace").split("\n")
+        complete = got and got[-1] == ""
+        if got and got[-1] == "":
+            got.pop()
+        elif got:
+            got.pop()                                        # a partial last line belongs to the op that died
+        fin.unlink(); fout.unlink()
+        if rc == 0 and complete and len(got) == len(lines) - i:
             out.extend(got)
             break
         k = min(len(got), len(lines) - i - 1)
@@ -573,6 +647,12 @@ def spec_failures(meta, ans):
             got = [] if t[i + 2:] == ["-"] else t[i + 2:]
             if got != want:
                 bad.append("listing-read-back-differs")
+            if "size" in meta and t[2] != "size=%d" % meta["size"]:
+                bad.append("listing-size-differs-from-replica")
+            size = int(t[2].split("=")[1])
+            kind = t[t.index("ino") + 1]
+            if kind == "dir" and (size + 3 > 0xFFFF or len(meta["ents"]) >= 256):
+                bad.append("basic-directory-inode-cannot-hold-size")
         elif op == "meta":
             whole = b"".join(meta["chunks"])
             i = t.index("all")
@@ -613,6 +693,21 @@ def spec_failures(meta, ans):
                     bad.append("id-read-back-differs")
             elif not ans.startswith("idx 7"):
                 bad.append("too-many-ids-not-refused")
+        elif op == "idlimit":
+            tbl = list(range(1000, 1000 + meta["n0"]))
+            want = ["idx"]
+            for x in meta["ids"]:
+                if x in tbl:
+                    want.append(str(tbl.index(x)))
+                elif len(tbl) >= 65535:
+                    want.append("e7")
+                    break
+                else:
+                    tbl.append(x)
+                    want.append(str(len(tbl) - 1))
+            want.append("count=%d" % len(tbl))
+            if t[:len(want)] != want:
+                bad.append("id-table-limit: wanted `%s`" % " ".join(want))
         elif op == "frag":
             v = ans.split(" rd ", 1)[1].split()
             want = ["%d/%d" % f for f in meta["frags"]]
